@@ -524,5 +524,10 @@ def expr_formula(ctx, e, bind=None):
         if d.endswith(("Vec::<T, A>::is_empty", "Vec::is_empty", "is_empty")):
             return ("atom", ("empty", canon(x[3][0], bind)))
         if d.endswith(("contains",)):
+            full = (x[2] or x[1])
+            if "str" not in flow.short(full).split("::")[0:2] and not flow.short(full).startswith(("str::", "String::")) and "Range" not in full:
+                # membership in a slice / Vec / set is the same test as `.iter().any(|e| e == x)`
+                a, b = "ELEM", canon(x[3][1], bind)
+                return ("atom", ("any", canon(x[3][0], bind), show(("atom", ("Eq",) + tuple(sorted((a, b)))))))
             return ("atom", ("contains", canon(x[3][0], bind), canon(x[3][1], bind)))
     return ("atom", ("opaque", canon(x, bind)))
